@@ -71,6 +71,7 @@ type c14Sched struct {
 	Mode      string   `json:"mode"`
 	Workspace bool     `json:"workspace"`
 	Docs      []c14Doc `json:"docs"`
+	Files     []c14Doc `json:"files,omitempty"` // files on disk that are never opened (mode "inc")
 	Ops       []c14Op  `json:"ops"`
 	Reps      int      `json:"reps"`
 	Jitter    uint64   `json:"jitter"`
@@ -252,6 +253,72 @@ func c14GenSched(c *Ctx, mode string) c14Sched {
 	} else {
 		s.Reps = 1
 	}
+	return s
+}
+
+// c14GenInc: the "shared included file" family (mode "inc").  Two documents include the same
+// file; that file has k lines that do not parse (k parse errors in the loader's cache entry)
+// and, below them, an include that fails at include level — a missing file, a cycle back to one
+// of the documents, or a chain that runs into the include depth limit — followed by a glob of
+// small files (more work between the failing include and the end of the load).  The stream
+// opens both documents and then changes them back to back several times, so that their
+// background loads overlap while the shared file is served from the loader's cache.
+// Observed: race / deadlock / panic as in mode "race", and after quiescence the include-level
+// diagnostics last published for each document, compared with a sequential replay (each
+// document's include errors must be those of ITS tree).
+func c14GenInc(c *Ctx, k int, variant string, ws bool) c14Sched {
+	r := c.R
+	s := c14Sched{Mode: "inc", Workspace: ws, Jitter: r.Uint64()}
+	var sh strings.Builder
+	for i := 0; i < k; i++ {
+		fmt.Fprintf(&sh, "!!! line %d is not a journal line\n", i)
+	}
+	sh.WriteString("\n")
+	var first []c14Op
+	switch variant {
+	case "missing":
+		fmt.Fprintf(&sh, "include missing-%d.journal\n", r.IntN(100))
+	case "cycle":
+		sh.WriteString("include a.journal\n")
+	case "depth":
+		sh.WriteString("include d1.journal\n")
+		s.Files = append(s.Files, c14Doc{Name: "d1.journal", Text: "include d2.journal\n\n" + c14Tx(r)})
+		s.Files = append(s.Files, c14Doc{Name: "d2.journal", Text: c14Tx(r)})
+		first = append(first, c14Op{K: "config", V: map[string]any{"limits": map[string]any{"maxIncludeDepth": 2 + r.IntN(2)}}})
+	}
+	sh.WriteString("include parts/*.journal\n")
+	np := 4 + r.IntN(8)
+	for i := 0; i < np; i++ {
+		s.Files = append(s.Files, c14Doc{Name: fmt.Sprintf("parts/p%02d.journal", i), Text: c14Tx(r)})
+	}
+	s.Files = append(s.Files, c14Doc{Name: "shared.journal", Text: sh.String()})
+	doc := func(name string, n int) string {
+		return fmt.Sprintf("include shared.journal\n\n2024-02-%02d %s %d\n    expenses:food  %d USD\n    assets:cash\n", 1+n%28, name, n, n+1)
+	}
+	s.Docs = []c14Doc{{Name: "a.journal", Text: doc("a", 0)}, {Name: "b.journal", Text: doc("b", 0)}}
+	s.Ops = append(s.Ops, first...)
+	s.Ops = append(s.Ops, c14Op{K: "open", D: 0, T: doc("a", 0)})
+	if r.IntN(2) == 0 {
+		s.Ops = append(s.Ops, c14Op{K: "yield", N: 100 + r.IntN(2000)})
+	}
+	s.Ops = append(s.Ops, c14Op{K: "open", D: 1, T: doc("b", 0)})
+	rounds := 2 + r.IntN(3)
+	for n := 1; n <= rounds; n++ {
+		x, y := 0, 1
+		if r.IntN(2) == 0 {
+			x, y = 1, 0
+		}
+		names := []string{"a", "b"}
+		s.Ops = append(s.Ops, c14Op{K: "change", D: x, T: doc(names[x], n)})
+		s.Ops = append(s.Ops, c14Op{K: "change", D: y, T: doc(names[y], n)})
+		if r.IntN(3) == 0 {
+			s.Ops = append(s.Ops, c14Op{K: "change", D: x, T: doc(names[x], n+100)})
+		}
+		s.Ops = append(s.Ops, c14Op{K: "yield", N: 300 + r.IntN(3000)})
+	}
+	s.Reps = c.N(2, 6)
+	c.Count(fmt.Sprintf("inc.k%d", k))
+	c.Count("inc." + variant)
 	return s
 }
 
@@ -462,6 +529,14 @@ func genC14(c *Ctx) {
 	for i := 0; i < nResp; i++ {
 		scheds = append(scheds, c14GenSched(c, "resp"))
 	}
+	// shared included file with k = 0..9 parse errors x the three include-level errors
+	for rep := 0; rep < c.N(1, 4); rep++ {
+		for k := 0; k <= 9; k++ {
+			for _, variant := range []string{"missing", "cycle", "depth"} {
+				scheds = append(scheds, c14GenInc(c, k, variant, c.R.IntN(3) == 0))
+			}
+		}
+	}
 	for _, r := range c14RunAll(c, scheds) {
 		c.Emit("c14.run", r)
 	}
@@ -554,7 +629,27 @@ type c14Client struct {
 	payloads        []map[string]any
 	cfgCalls        int
 	published       map[protocol.DocumentURI]int
+	lastDiag        map[protocol.DocumentURI][]string // include-level messages of the last publish per document
 	jit             *rand.Rand
+}
+
+// diagOf: under the client's mutex (the harness waits for the background goroutines by polling,
+// which orders nothing for the race detector; the mutex does).
+func (cl *c14Client) diagOf(u protocol.DocumentURI) []string {
+	cl.mu.Lock()
+	defer cl.mu.Unlock()
+	return cl.lastDiag[u]
+}
+
+// c14IncludeLevel: is this the message of an include-level load error (include.LoadError other
+// than a parse error), as opposed to a diagnostic of the document's own text?
+func c14IncludeLevel(msg string) bool {
+	for _, p := range []string{"cycle detected", "cannot read", "include depth limit", "no files match", "invalid glob", "path traversal", "included file too large", "file too large"} {
+		if strings.HasPrefix(msg, p) {
+			return true
+		}
+	}
+	return false
 }
 
 func (cl *c14Client) sleep() {
@@ -573,6 +668,19 @@ func (cl *c14Client) sleep() {
 
 func (cl *c14Client) PublishDiagnostics(ctx context.Context, p *protocol.PublishDiagnosticsParams) error {
 	cl.sleep()
+	var inc []string
+	for _, d := range p.Diagnostics {
+		if c14IncludeLevel(d.Message) {
+			inc = append(inc, fmt.Sprintf("%d:%d %s", d.Range.Start.Line, d.Range.Start.Character, d.Message))
+		}
+	}
+	sort.Strings(inc)
+	cl.mu.Lock()
+	if cl.lastDiag == nil {
+		cl.lastDiag = map[protocol.DocumentURI][]string{}
+	}
+	cl.lastDiag[p.URI] = inc
+	cl.mu.Unlock()
 	return nil
 }
 
@@ -829,7 +937,7 @@ func c14RunOnce(s *c14Sched, dir string, sequential bool, jitter uint64) (run *c
 			c14Wait("all")
 		}
 	}
-	if sequential || s.Mode == "resp" {
+	if sequential || s.Mode != "race" {
 		c14Wait("refresh")
 	}
 	for i, op := range s.Ops {
@@ -868,7 +976,7 @@ func c14RunOnce(s *c14Sched, dir string, sequential bool, jitter uint64) (run *c
 			srv.DidChangeConfiguration(ctx, &protocol.DidChangeConfigurationParams{})
 			if cl.gated {
 				pendingCfg++
-			} else if sequential || s.Mode == "resp" {
+			} else if sequential || s.Mode != "race" {
 				// settings are part of the state a response is computed from: apply before going on
 				c14Wait("refresh")
 			}
@@ -917,6 +1025,10 @@ func c14RunSched(c *Ctx, s *c14Sched, idx int) map[string]any {
 	for _, d := range s.Docs {
 		os.WriteFile(filepath.Join(dir, d.Name), []byte(d.Text), 0o644)
 	}
+	for _, d := range s.Files {
+		os.MkdirAll(filepath.Dir(filepath.Join(dir, d.Name)), 0o755)
+		os.WriteFile(filepath.Join(dir, d.Name), []byte(d.Text), 0o644)
+	}
 	c14Active.Store(true)
 	defer c14Active.Store(false)
 	impl := map[string]any{"race": false, "deadlock": false, "panic": false}
@@ -934,6 +1046,36 @@ func c14RunSched(c *Ctx, s *c14Sched, idx int) map[string]any {
 			break
 		}
 		c.Count(s.Mode + ".runs")
+		if s.Mode == "inc" {
+			// each document's published include errors must be those of its own tree
+			seq := c14RunOnce(s, dir, true, 0)
+			if seq.panicked != "" {
+				impl["panic"] = true
+				report = seq.panicked
+				break
+			}
+			for d, u := range run.uris {
+				if !run.opened[d] {
+					continue
+				}
+				c.Count("inc.compared")
+				got := strings.Join(run.cl.diagOf(u), "\n")
+				wantL := seq.cl.diagOf(u)
+				want := strings.Join(wantL, "\n")
+				if len(wantL) > 0 {
+					c.Count("inc.with-include-error")
+				}
+				if got != want {
+					c.Count("inc.diff")
+					diffs = append(diffs, map[string]any{"i": len(s.Ops), "k": "diag", "d": d, "ws": run.srv.Workspace() != nil, "inflight": 0, "overlap": false, "diagoff": false, "inc": true,
+						"got": clip(got, 600), "want": clip(want, 600)})
+				}
+			}
+			if len(diffs) > 0 {
+				break
+			}
+			continue
+		}
 		if s.Mode != "resp" {
 			continue
 		}
